@@ -326,12 +326,10 @@ impl Dialect for UnawareDialect {
         self.inner.gc_candidate(allocator, op)
     }
     fn op(&self, allocator: &mut Allocator, op: NodePtr, args: NodePtr, max_cost: Cost, extensions: OperatorSet) -> Response {
-        if allocator.atom_len(op) == 4 {
-            let b = allocator.atom(op);
-            let code = u32::from_be_bytes(b.as_ref().try_into().unwrap());
-            if code == 0x13d61f00 || code == 0x1c3a8f00 {
-                return op_unknown(allocator, op, args, max_cost, self.inner.flags());
-            }
+        // The only 4-byte opcodes with a meaning are the two secp operators; a node that does not
+        // know them prices *every* 4-byte opcode with the unknown-operator rule (in consensus mode).
+        if allocator.atom_len(op) == 4 && self.inner.allow_unknown_ops() {
+            return op_unknown(allocator, op, args, max_cost, self.inner.flags());
         }
         self.inner.op(allocator, op, args, max_cost, extensions)
     }
